@@ -430,4 +430,94 @@ Section IterProofs.
     cbn [bind]. rewrite acc_list_filter_top by (eapply chain_wf; eauto). reflexivity.
   Qed.
 
+  (* every match of the iteration is the result of some in-range attempt *)
+  Definition attempted (m : mt) : Prop := exists ts p, 0 <= p <= len /\ attempt ts p = Some m.
+
+  Lemma first_hit_attempted ts pos m : 0 <= pos <= len -> first_hit (dist pos) ts pos = Some m -> attempted m.
+  Proof.
+    intros Hp H. apply first_hit_some in H. destruct H as (j & Hj & Ha & _).
+    exists ts, (pos + bump * Z.of_nat j). split; [|exact Ha].
+    unfold dist, Iter.bump in *. destruct rtl; lia.
+  Qed.
+
+  Lemma scan_p_attempted ts prevlen m : 0 <= ts <= len -> scan_p ts prevlen = Some m -> attempted m.
+  Proof.
+    intros Ht. unfold scan_p. destruct (prevlen =? 0).
+    - destruct (ts =? stoppos) eqn:E; [discriminate|]. apply first_hit_attempted.
+      unfold Iter.stoppos, Iter.bump in *. destruct rtl; lia.
+    - apply first_hit_attempted. exact Ht.
+  Qed.
+
+  Lemma chain_attempted : forall ms cur, chain cur ms ->
+    (forall m, cur = Some m -> attempted m) -> Forall attempted ms.
+  Proof.
+    induction ms as [|x ms IH]; intros cur Hc Hcur; [constructor|].
+    inv Hc. constructor; [apply Hcur; reflexivity|].
+    eapply IH; [eassumption|]. intros m' Hm'. eapply scan_p_attempted; [|exact Hm'].
+    apply wfm_textpos. assumption.
+  Qed.
+
+  Lemma first_hit_noG : no_G -> forall k ts ts' pos, first_hit k ts pos = first_hit k ts' pos.
+  Proof.
+    intros HG. induction k as [|k IH]; intros ts ts' pos; cbn [first_hit]; rewrite (HG ts ts' pos).
+    - reflexivity.
+    - destruct (attempt ts' pos); [reflexivity | apply IH].
+  Qed.
+
+  Lemma acc_list_big edge : forall ms pe n, Z.of_nat (length ms) <= n ->
+    acc_list edge ms pe n = acc_list edge ms pe (-1).
+  Proof.
+    induction ms as [|m ms IH]; intros pe n Hn.
+    - cbn [acc_list]. destruct (n =? 0); reflexivity.
+    - cbn [length] in Hn. cbn [acc_list].
+      assert (n =? 0 = false) as -> by lia. assert (-1 =? 0 = false) as -> by lia.
+      assert (n >? 0 = true) as -> by lia. assert (-1 >? 0 = false) as -> by lia.
+      destruct (accept m pe).
+      + f_equal. apply IH. lia.
+      + apply IH. lia.
+  Qed.
+
+  Lemma acc_list_ext e1 e2 : forall ms pe n, Forall (fun m => e1 m = e2 m) ms ->
+    acc_list e1 ms pe n = acc_list e2 ms pe n.
+  Proof.
+    induction ms as [|m ms IH]; intros pe n H; [reflexivity|]. inv H.
+    cbn [acc_list]. destruct (n =? 0); [reflexivity|]. destruct (accept m pe).
+    - f_equal. rewrite H2. apply IH; assumption.
+    - apply IH; assumption.
+  Qed.
+
+  Lemma acc_list_length edge : forall ms pe n, (length (acc_list edge ms pe n) <= length ms)%nat.
+  Proof.
+    induction ms as [|m ms IH]; intros pe n; cbn [acc_list].
+    - destruct (n =? 0); cbn; lia.
+    - destruct (n =? 0); [cbn; lia|]. destruct (accept m pe); cbn [length].
+      + specialize (IH (edge m) (if n >? 0 then n - 1 else n)). lia.
+      + specialize (IH pe n). lia.
+  Qed.
+
+  (* compat's forEachStringMatch walks the same chain *)
+  Notation for_each_loop := (for_each_loop rtl len attempt).
+
+  Lemma for_each_loop_chain : forall ms fuel cur pe n,
+    chain cur ms -> (length ms < fuel)%nat ->
+    for_each_loop fuel dflt cur pe n = Ok (acc_list (fun m => m_index m + m_length m) ms pe n).
+  Proof.
+    induction ms as [|m ms IH]; intros fuel cur pe n Hc Hf.
+    - inv Hc. destruct fuel; cbn [Iter.for_each_loop acc_list]; destruct (n =? 0); reflexivity.
+    - inv Hc. destruct fuel as [|f]; [cbn in Hf; lia|]. cbn [Iter.for_each_loop acc_list].
+      destruct (n =? 0) eqn:En; [reflexivity|].
+      fold (accept m pe). destruct (accept m pe).
+      + destruct ((n >? 0) && ((if n >? 0 then n - 1 else n) =? 0)) eqn:Eb.
+        * assert ((if n >? 0 then n - 1 else n) = 0) as -> by lia. rewrite acc_list_0. reflexivity.
+        * rewrite find_next_ok by assumption. cbn [bind].
+          rewrite (IH f (next_p m)); [reflexivity | assumption | cbn in Hf; lia].
+      + rewrite find_next_ok by assumption. cbn [bind].
+        apply IH; [assumption | cbn in Hf; lia].
+  Qed.
+
+  Lemma chain_inv_nil cur : chain cur [] -> cur = None.
+  Proof. intros H. inversion H. reflexivity. Qed.
+  Lemma chain_inv_cons cur m ms : chain cur (m :: ms) -> cur = Some m /\ wfm m /\ chain (next_p m) ms.
+  Proof. intros H. inversion H as [|m0 ms0 Hw Hc]; subst. split; [reflexivity|]. split; assumption. Qed.
+
 End IterProofs.
